@@ -12,6 +12,7 @@ Section StackThrottled.
   Variables CHUNK TAG BLOCK LIMIT : N.
   Hypothesis HCHUNK : 0 < CHUNK.
   Hypothesis HTAG : 0 < TAG.
+  Hypothesis Hsz : CHUNK + TAG <= 2 ^ 31.       (* LayerStack: the u64 / i64 ranges of the encryption reader's seek *)
   Hypothesis HB : 0 < BLOCK.
   Hypothesis HB32 : BLOCK < 2 ^ 32.
   Variable ks : N -> N -> N.
@@ -36,7 +37,7 @@ Section StackThrottled.
 
   Theorem stack_over_throttled : Refines StackT plain RstackT.
   Proof.
-    apply (stack_refines CHUNK TAG BLOCK LIMIT HCHUNK HTAG HB HB32 ks tagc Htagc comp dec Hcomp
+    apply (stack_refines CHUNK TAG BLOCK LIMIT HCHUNK HTAG Hsz HB HB32 ks tagc Htagc comp dec Hcomp
              header plain nb Hnb Hlim HL Hchunks Hlen TS Rthr).
     exact (throttled_refines arch).
   Qed.
@@ -46,7 +47,7 @@ Section StackThrottled.
       comp_open LIMIT (EncS CHUNK TAG ks tagc TS) (enc_initialize CHUNK TAG ks tagc TS)
         (@mkE (RawS TS) r [] 0 0) = (c, Ok tt) /\ RstackT c 0.
   Proof.
-    apply (stack_open CHUNK TAG BLOCK LIMIT HCHUNK HTAG HB HB32 ks tagc Htagc comp dec Hcomp
+    apply (stack_open CHUNK TAG BLOCK LIMIT HCHUNK HTAG Hsz HB HB32 ks tagc Htagc comp dec Hcomp
              header plain nb Hnb Hcs Hlim HL Hchunks Hlen TS Rthr (throttled_refines arch)).
     split; [reflexivity|]. unfold archive. rewrite len_app. lia.
   Qed.
